@@ -252,9 +252,10 @@ impl DcpsDomainParticipant {
                 if let DurationKind::Finite(deadline) = data_reader.qos.deadline.period {
                     let missed_instances: Vec<_> = data_reader
                         .instances
-                        .iter()
+                        .iter_mut()
                         .filter_map(|x| {
                             if now - x.last_received_time_stamp() > deadline {
+                                x.rearm_deadline(deadline);
                                 Some(x.handle)
                             } else {
                                 None
